@@ -36,6 +36,7 @@ type FDInfo struct {
 	Reads      int64  // successful read calls
 	Gen        int
 	CloseSite  string
+	CloseRound int64 // epoll batch of the closing goroutine at the time of the close
 }
 
 type shard struct {
@@ -253,10 +254,21 @@ func createdLocked(s *shard, fd int, class string) {
 
 // use checks an operation on fd; returns the info pointer (under lock held by caller).
 func useLocked(s *shard, op string, fd int) *FDInfo {
-	if tag, ok := foreign.Load(fd); ok {
-		alarm("foreign-touch", op, fd, fmt.Sprint("tag=", tag))
-	}
 	fi := s.m[fd]
+	// was the number closed while the same batch of events was being worked on, or in an earlier one?
+	batch := ""
+	if fi != nil && fi.State == stReleased && strings.HasPrefix(op, "epoll_ctl") && fi.CloseRound >= 0 {
+		if rn := roundOfCaller(); rn != fi.CloseRound {
+			batch = "(later-batch)"
+		}
+	}
+	if tag, ok := foreign.Load(fd); ok {
+		alarm("foreign-touch"+batch, op, fd, fmt.Sprint("tag=", tag))
+		if fi == nil {
+			fi = &FDInfo{FD: fd, State: stUnknown, Class: "adopted"}
+		}
+		return fi // reported once: not also as use-after-close
+	}
 	if fi == nil {
 		fi = &FDInfo{FD: fd, State: stUnknown, Class: "adopted"}
 		s.m[fd] = fi
@@ -267,7 +279,7 @@ func useLocked(s *shard, op string, fd int) *FDInfo {
 		if op == "close" {
 			kind = "double-close"
 		}
-		alarm(kind, op, fd, fmt.Sprintf("class=%s created=%s closed=%s", fi.Class, fi.Site, fi.CloseSite))
+		alarm(kind+batch, op, fd, fmt.Sprintf("class=%s created=%s closed=%s", fi.Class, fi.Site, fi.CloseSite))
 	}
 	return fi
 }
@@ -466,6 +478,30 @@ type pollerRec struct {
 }
 
 var pollers sync.Map // epfd -> *pollerRec
+
+// waitRound[goroutine id] = number of epoll_wait calls that goroutine has returned from: the "batch" a
+// loop goroutine is currently working on
+var waitRound sync.Map // int64 -> *atomic.Int64
+
+func goid() int64 {
+	var buf [64]byte
+	n := runtime.Stack(buf[:], false)
+	var id int64
+	for _, c := range buf[10:n] {
+		if c < '0' || c > '9' {
+			break
+		}
+		id = id*10 + int64(c-'0')
+	}
+	return id
+}
+
+func roundOfCaller() int64 {
+	if v, ok := waitRound.Load(goid()); ok {
+		return v.(*atomic.Int64).Load()
+	}
+	return -1
+}
 
 func pollerOf(epfd int) *pollerRec {
 	if v, ok := pollers.Load(epfd); ok {
@@ -713,6 +749,7 @@ func Close(fd int) (err error) {
 	fi := useLocked(s, "close", fd)
 	fi.State = stReleased
 	fi.CloseSite = site()
+	fi.CloseRound = roundOfCaller()
 	cls := fi.Class
 	s.mu.Unlock()
 	// Linux close(2) releases the descriptor even when it reports EINTR/EIO, so an
@@ -868,6 +905,14 @@ func epollWaitCommon(epfd int, msec int, do func() (int, error)) (int, error) {
 	n, err := do()
 	p.entry.Store(0)
 	p.waits.Add(1)
+	if n > 0 {
+		g := goid()
+		v, ok := waitRound.Load(g)
+		if !ok {
+			v, _ = waitRound.LoadOrStore(g, new(atomic.Int64))
+		}
+		v.(*atomic.Int64).Add(1)
+	}
 	if err == unix.EBADF {
 		alarm("ebadf", "epoll_wait", epfd, "system call returned EBADF")
 	}
